@@ -152,7 +152,7 @@ func pathoHTML(r *Rng) []byte {
 	n := 200 + r.Intn(3000)
 	switch r.Intn(12) {
 	case 0:
-		return []byte(strings.Repeat("<div>", n*4))
+		return []byte(strings.Repeat("<div>", n*2))
 	case 1:
 		return []byte(strings.Repeat("<b><i><font>", n) + "x")
 	case 2:
@@ -497,8 +497,8 @@ func mutPDF(r *Rng) []byte {
 			objs[i] = strings.Replace(objs[i], fmt.Sprintf("%d 0 R", 1+r.Intn(len(objs))), fmt.Sprintf("%d 0 R", r.Intn(len(objs)+3)), 1)
 		case 1: // cyclic page tree
 			objs[1] = "<< /Type /Pages /Kids [2 0 R 3 0 R] /Count " + pickS(r, []string{"2", "-1", "1000000", "0"}) + " /Parent 2 0 R >>"
-		case 2: // wrong types
-			objs[i] = strings.NewReplacer("[", "<< /X ", "]", " >>").Replace(objs[i])
+		case 2: // wrong types (a few brackets only: deep unterminated dictionaries are the known exponential case)
+			objs[i] = strings.Replace(strings.Replace(objs[i], "[", "<< /X ", 2), "]", " >>", 2)
 		case 3:
 			objs[i] = string(mutate(r, []byte(objs[i]), 1+r.Intn(3), pdfDict))
 		case 4: // drop a key
@@ -626,6 +626,8 @@ func genFuzzData(target, g string, seed uint64) []byte {
 		return randBytes(r, r.Intn(64)), nil
 	}
 	switch g {
+	case "nest": // s unclosed <div> elements (x/net/html parses them in quadratic time)
+		return []byte(strings.Repeat("<div>", int(seed%(1<<21))))
 	case "valid":
 		d, _ := valid()
 		return d
